@@ -914,6 +914,29 @@ func isCommutative(instr *ssa.BinOp) bool {
 				return true
 			}
 		}
+		// An operand whose type is a type parameter: + is commutative unless some type of the
+		// constraint is a string type (T ~int | ~int64 yes, T ~int | ~string no).
+		if tp, ok := types.Unalias(instr.X.Type()).(*types.TypeParam); ok {
+			if iface, ok := tp.Constraint().Underlying().(*types.Interface); ok && iface.NumEmbeddeds() > 0 {
+				numeric := true
+				for i := 0; i < iface.NumEmbeddeds() && numeric; i++ {
+					terms := []*types.Term{types.NewTerm(false, iface.EmbeddedType(i))}
+					if u, isUnion := iface.EmbeddedType(i).(*types.Union); isUnion {
+						terms = terms[:0]
+						for j := 0; j < u.Len(); j++ {
+							terms = append(terms, u.Term(j))
+						}
+					}
+					for _, term := range terms {
+						b, isBasic := term.Type().Underlying().(*types.Basic)
+						if !isBasic || b.Info()&types.IsNumeric == 0 {
+							numeric = false
+						}
+					}
+				}
+				return numeric
+			}
+		}
 		return false
 	case token.MUL, token.EQL, token.NEQ, token.AND, token.OR, token.XOR:
 		return true
